@@ -64,7 +64,7 @@ def run(ctx):
     if res.violated:
         ctx.violation({"check": "design", "invariant": res.violated[0]}, f"Saem.tla violates {res.violated}", replay=res.trace_text[:4000])
     rnd = random.Random(ctx.seed)
-    kinds = ["logistic_diag_src1"] if q else ["logistic_diag_src1", "joint_src1", "linear_scalar_src1"]
+    kinds = ["logistic_diag_src1", "joint_src1"] if q else ["logistic_diag_src1", "joint_src1", "linear_scalar_src1"]
     n_cfg = 24 if q else 150
     first = None
     for kind in kinds:
@@ -88,7 +88,7 @@ def run(ctx):
         events += evs1
         ctx.case(key=(kind, "repeat-after-history"))
         # the same algorithm object run twice (annealing on), and settings that travelled through a JSON file, for seeds 0 and 5
-        for sd in (0, 5):
+        for sd in ((0, 5) if (not q or kind == kinds[0]) else ()):
             acfg = dict(base_cfg, ann=dict(spec=("count", 4), p=3, t0=(5, 1)))
             w2 = os.path.join(ctx.tmp, f"reuse_{kind}_{sd}")
             os.makedirs(w2, exist_ok=True)
@@ -101,7 +101,8 @@ def run(ctx):
             evs_c, _ = saem.run_config(kind, acfg, seed=sd, workdir=w2, compare_to=info_a["params"], via_file=True)
             events += evs_c
             ctx.case(key=(kind, "reuse+file", sd))
-        for i, l in enumerate(log_configs(rnd, n_cfg)):
+        # (quick tier: the second kind - a joint model, whose outputs include the survival shifts - gets a third of the configurations)
+        for i, l in enumerate(log_configs(rnd, n_cfg if (not q or kind == kinds[0]) else 8)):
             c = dict(base_cfg, log=l)
             w = os.path.join(ctx.tmp, f"log_{kind}_{i}")
             os.makedirs(w, exist_ok=True)
@@ -112,7 +113,7 @@ def run(ctx):
         ctx.traces += n_cfg + 2
         ctx.states += res.distinct
         ctx.transitions += res.generated
-        ctx.log(f"{kind}: {n_cfg} logging configurations + repeat, {len(events)} events -> {'accepted' if ok else f'REJECTED at event {k}'} ({res.wall:.1f}s)")
+        ctx.log(f"{kind}: logging configurations + repeat, {len(events)} events -> {'accepted' if ok else f'REJECTED at event {k}'} ({res.wall:.1f}s)")
         if ok and first is None:
             first = (kind, events, vars_, params)
         if not ok:
